@@ -53,7 +53,8 @@ CLAIMS["C07"] = (
     "over the full operator x operand-type x operand-value matrix on value documents; replay on the engine via Evaluate "
     "and as predicates via Select; seeded deeper comparisons recorded from the engine and validated by TLC; exact "
     "unbounded binary64 model (XFloat.tla, arbitrary-precision limbs) for comparisons over non-dyadic and > 2^53 values "
-    "(MC_Float families cmp, pred), engine replies compared bit for bit",
+    "(MC_Float families cmp, pred), engine replies compared bit for bit; seeded random numerals and trees recorded from the "
+    "engine and validated by TLC against the same model (XFBatch.tla)",
     "Exhaustive model checking of the claimed type pairs: 6 operators x number/string/node-set operands incl. NaN, "
     "infinity, non-numeric, empty, whitespace-padded and duplicate node values; short-circuit observed through an operand "
     "that raises a deliberate complaint if evaluated.",
@@ -63,7 +64,8 @@ CLAIMS["C08"] = (
     "explored by TLC over all arithmetic trees of depth 1-2 (thorough: larger leaf sets), depth 3-4 by seeded engine "
     "traces validated by TLC; bit-exact comparison of the engine's float64 with the specified value; XFloat.tla: "
     "exact unbounded binary64 (correctly rounded decimal conversion, + - * div, exact mod, floor, ceiling, shortest "
-    "round-trip string) on arbitrary-precision naturals, MC_Float families arith1, arith2, fn, str",
+    "round-trip string) on arbitrary-precision naturals, MC_Float families arith1, arith2, fn, str, extreme (overflow, "
+    "subnormals); recorded engine replies for seeded random numerals of up to 40 digits validated by TLC (XFBatch.tla)",
     "Bounded-exhaustive model checking of arithmetic, number(), count(), sum(), floor(), ceiling(), unary minus and "
     "string(number); values outside the small dyadic model (1 div 3, 0.1 + 0.2, 2^63) are decided by the XFloat families.",
     CLAIMS["C01"][2] + " XFloat.tla is trusted to state IEEE 754 round-to-nearest-even (its sanity invariant FloatSanity "
@@ -72,7 +74,8 @@ CLAIMS["C09"] = (
     "TLA+ string library (XValue.tla) explored by TLC over the full argument product per function (substring: strings x "
     "15 starts x 11 lengths incl. negative/fractional/beyond the end) and depth-2 compositions; replay on the engine; "
     "depth 3-4 compositions by seeded engine traces validated by TLC; substring() positions that are halves, inexact "
-    "sums, NaN, infinities or beyond 2^63 through the exact binary64 model XFloat.tla (MC_Float family substr)",
+    "sums, NaN, infinities or beyond 2^63 through the exact binary64 model XFloat.tla (MC_Float family substr; recorded "
+    "traces validated by XFBatch.tla)",
     "Exhaustive model checking of every string function over an ASCII pool incl. empty / whitespace strings and flat "
     "node-set arguments (first node, empty set).",
     CLAIMS["C01"][2], "DESIGN.md 4/C09")
